@@ -39,6 +39,18 @@ checks = {
  "C13": ("fault_enumeration", "4 C13", "fault enumeration: a panic injected at every individual user-function invocation of generated programs, then observer reads / re-stabilise / drops checked",
    "Each generated program is re-executed once per user-function invocation it performs, with a panic injected there and caught by the caller; afterwards reads must fail (or, for a handler fault, equal the fully propagated model values), a further stabilise must refuse without invoking anything, and dropping everything must not panic or abort (worker processes detect aborts). Both build configurations.",
    "faults are injected only in functions the harness supplies (node functions, bind closures, boxed/fn cutoffs, handlers); bounded program sizes"),
+ "C15": (EXPL, "4 C15", "property-based differential testing of every diff operator on every map type against the plain std-collections definition, over edit and observe/unobserve histories",
+   "Operator x map-type matrix with generated edit histories (insert/remove/change/clear/refill/equal write) and observe/unobserve toggles; after every observed stabilise the output must equal the plain function of the current input(s).",
+   "small key/value domain (8 keys, 4 values); pure, invertible user functions"),
+ "C16": (EXPL, "4 C16", "property-based differential testing of incr_mapi_/incr_filter_mapi_ (+cutoff variants) with a family of per-key graph builders against the per-key definition",
+   "Per-key functions: pure map, map2 with an outer var, bind on the value, input-ignoring, one shared node for all keys; histories of map edits, outer var writes and observe/unobserve; output compared after every observed stabilise; panics are violations; both build configurations.",
+   "small key/value domain; equal-only cutoffs"),
+ "C17": (EXPL, "4 C17", "PBT with instrumented user functions: per stabilise the set of (role,key) calls must lie within the keys that changed since the operator last processed its input",
+   "Every user function logs (role,key); the model keeps the input the operator last processed (also across unobserved periods) and allows calls only for differing keys (all keys on initialisation), at most once per key and role; builders only for added keys.",
+   "incr_map/incr_filter_map receive only values: call count bound instead of key set"),
+ "C18": (EXPL, "4 C18", "exhaustive enumeration of small map pairs + random larger pairs against the definition of the symmetric difference; instrumented incr_merge for merge order",
+   "symmetric_fold on BTreeMap, Rc<BTreeMap> and OrdMap must visit exactly the differing keys once, ascending, with the right Left/Right/Unequal payloads, for ALL pairs over a small domain and random pairs over 40 keys; incr_merge's merge function must be called in strictly ascending key order for exactly the keys that differ in either input and are still present.",
+   "MergeOnceWith is crate-private and reached only through incr_merge"),
  "C09": (EXPL, "4 C09", "stateful PBT with a per-subscription notification model (Initialised once, Changed iff changed, one Invalidated, nothing after the end)",
    "Every delivered update is logged with the value the observer returns at that moment and the values of all other observers; per-subscription sequences are compared with the model for each round.",
    "handler order across subscriptions unspecified: oracles are per subscription"),
